@@ -5,16 +5,17 @@ import SshuttleModel.Lemmas.FwRulesNat
 
 namespace Sshuttle.Fw
 
-/-- A tproxy DNS rule (`--dest ip/32` for IPv4, `ip/128` for IPv6) matches exactly UDP port 53
-to that name server. -/
-theorem tproxyDns_match (v6 : Bool) (ns : Ns) (p : Pkt) (mark : Option String)
-    (hp : p.fam6 = v6) :
-    matchRule (tproxyDnsMatch v6 ns) p mark =
+/-- A tproxy DNS rule (`--dest ip/32`) matches exactly UDP port 53 to that name server —
+for IPv4, where 32 is the address width. -/
+theorem tproxyDns_match_v4 (ns : Ns) (p : Pkt) (mark : Option String)
+    (hp : p.fam6 = false) :
+    matchRule (tproxyDnsMatch false ns) p mark =
       (p.proto == .udp && p.dport == 53 && ns.addr == p.dst) := by
-  subst hp
   obtain ⟨fam6, dst, dport, proto, loc, dl, uid, gid, mk, sock, srcLo⟩ := p
+  simp only at hp
+  subst hp
   have h53 : Gen.C03.TPROXY_DNS_PORT = 53 := rfl
-  cases fam6 <;> cases proto <;>
+  cases proto <;>
   simp [matchRule, tproxyDnsMatch, tproxyDnsWidth, destMatch, portsMatch, inPrefix, bits, h53,
     Bool.and_comm]
 
